@@ -126,7 +126,16 @@ def gen_case(rng, family='any'):
             signals = [['vol', [n]]]
             alpha = {'invvol': n}
             lo = True
-        if rng.random() < 0.4:
+        if rotation and rng.random() < 0.7:
+            # two assets admitted at the same instant after the start, one of them not yet priced for a few days
+            kk = rng.randrange(3, 10)
+            e = (day_of(d0) + kk) * 86400 + CLOSE
+            dates = [[a, start - 86400] for a in assets[:-2]] + [[a, e] for a in assets[-2:]]
+            uni = {'dynamic': dates}
+            late = dict(late or {})
+            late[syms[-1 if rng.random() < 0.5 else -2]] = 10 + kk + rng.randrange(1, 4)
+            reb = 'weekly'
+        elif rng.random() < 0.4:
             dates = [[a, (start - 86400 if rng.random() < 0.4 else (day_of(d0) + rng.randrange(0, max(1, nd))) * 86400 + rng.choice([CLOSE, CLOSE, OPEN + 60, 40000]))] for a in assets]
             uni = {'dynamic': dates}
     if rng.random() < 0.2:
